@@ -413,7 +413,7 @@ impl World {
             is_stream,
             is_inner,
             spec,
-            pend_left: if spec.eager { 0 } else { self.cfg.p },
+            pend_left: if spec.eager || spec.always { 0 } else { self.cfg.p },
             items_left: self.cfg.i,
             seq: 0,
             polls: 0,
@@ -914,7 +914,8 @@ impl World {
     }
 
     pub fn note_state(&mut self) {
-        if self.track_states {
+        // wide containers: fingerprinting is O(children) per step; only small shapes are counted
+        if self.track_states && self.children.len() <= 32 {
             let h = self.abstract_state();
             self.abstract_hashes.push(h);
         }
